@@ -90,6 +90,23 @@ theorem later_not_first (w : Wakeups) (h : UniqueKeys w) (cs : List Comp) (m : S
   rw [hc] at hlt
   exact absurd hlt (Int.lt_irrefl _)
 
+/-- the nested scheduler's choice of due components (`when <= time`) depends only on the order too -/
+theorem nestedDue_mapTimes (f : Int → Int) (hf : ∀ a b, a ≤ b ↔ f a ≤ f b) (w : Wakeups) (t : SimTime) :
+    nestedDue (mapTimes f w) (f t) = nestedDue w t := by
+  unfold nestedDue mapTimes
+  induction w with
+  | nil => simp
+  | cons e es ih =>
+    simp only [List.map_cons, List.filter_cons]
+    by_cases h : e.2 ≤ t
+    · have h' : f e.2 ≤ f t := (hf _ _).1 h
+      simp [h, h', ih]
+    · have h' : ¬ f e.2 ≤ f t := fun x => h ((hf _ _).2 x)
+      simp [h, h', ih]
+
+/-- a wakeup 1 ns after the tick time is not due, however large the times -/
+example : nestedDue [("a", 3600000000000), ("b", 3600000000001)] 3600000000000 = ["a"] := by decide
+
 /-- non-vacuity: after an hour of simulated time, 25 ns apart is apart; equal is together -/
 example : firstWakeups [("sens", 3600000000025), ("pump", 3600000000000), ("same", 3600000000000)]
     = (["pump", "same"], some 3600000000000) := by decide
